@@ -1,17 +1,24 @@
 package node
 
 import (
+	"errors"
 	"io"
 	"io/ioutil"
 	"net"
+	"os"
+	"reflect"
+	"runtime"
 	"sync"
 	"testing/synctest"
+	"time"
+	"unsafe"
 
 	"github.com/dfklegend/cell2/node/client/impls/pomelo"
 	"github.com/dfklegend/cell2/pomelonet/common/conn/codec"
 	"github.com/dfklegend/cell2/pomelonet/common/conn/message"
 	"github.com/dfklegend/cell2/pomelonet/common/conn/packet"
 	"github.com/dfklegend/cell2/pomelonet/constants"
+	pi "github.com/dfklegend/cell2/pomelonet/interfaces"
 	"github.com/dfklegend/cell2/pomelonet/server/acceptor"
 	"github.com/dfklegend/cell2/pomelonet/server/session"
 )
@@ -87,6 +94,12 @@ type Client struct {
 	Session *session.ClientSession
 	// AutoHeartbeat (default true): Node.Advance sends heartbeats for this client.
 	AutoHeartbeat bool
+	// WriteTimeout > 0 (clients of Node.Accept): a write nobody reads within this (virtual) time is
+	// taken as buffered by the transport, as a TCP socket would: the write "succeeds", the
+	// connection is marked Stuck and later writes are not attempted.  0 = writes block (net.Pipe).
+	WriteTimeout time.Duration
+	// Served: how many ClientSessions the accept loop built on this connection (Node.Accept only; 1 is right).
+	Served int
 
 	conn   net.Conn
 	srv    *pipeConn
@@ -99,6 +112,140 @@ type Client struct {
 	taken  int
 	closed bool // the server closed the connection (reader saw EOF)
 	gone   bool // Close() was called on the client end
+	stuck  bool // a write timed out: nobody reads the server end
+}
+
+// ---------------------------------------------------------------- in-memory acceptor (Node.Accept)
+
+// memAcceptor is an acceptor.Acceptor without a socket: what TCPAcceptor / WSAcceptor hand to
+// pomelo.StartAcceptor is a channel of accepted PlayerConns; here the harness is the listener.
+type memAcceptor struct {
+	ch   chan acceptor.PlayerConn
+	stop chan struct{}
+	cfg  *session.SessionConfig
+
+	mu     sync.Mutex
+	byConn map[acceptor.PlayerConn][]*session.ClientSession
+}
+
+func (a *memAcceptor) ListenAndServe()                       { <-a.stop }
+func (a *memAcceptor) Stop()                                 { close(a.stop) }
+func (a *memAcceptor) GetAddr() string                       { return "mem" }
+func (a *memAcceptor) GetConnChan() chan acceptor.PlayerConn { return a.ch }
+
+// captureImpl is the front's real SessionsImpl; OnSessionCreate additionally notes which
+// connection the new session was built on (the accept loop does not return its sessions).
+type captureImpl struct {
+	pi.IClientSessionImpl
+	a *memAcceptor
+}
+
+func (c *captureImpl) OnSessionCreate(s pi.IClientSession) {
+	if cs, ok := s.(*session.ClientSession); ok {
+		if f := reflect.ValueOf(cs).Elem().FieldByName("conn"); f.IsValid() && f.CanAddr() {
+			pc := *(*acceptor.PlayerConn)(unsafe.Pointer(f.UnsafeAddr()))
+			c.a.mu.Lock()
+			c.a.byConn[pc] = append(c.a.byConn[pc], cs)
+			c.a.mu.Unlock()
+		}
+	}
+	c.IClientSessionImpl.OnSessionCreate(s)
+}
+
+func (n *Node) acceptorOf(front string) *memAcceptor {
+	n.mu.Lock()
+	defer n.mu.Unlock()
+	if a := n.acceptors[front]; a != nil {
+		return a
+	}
+	s := n.svcs[front]
+	if s == nil || s.sessions == nil {
+		panic("node.Accept: not a front service: " + front)
+	}
+	a := &memAcceptor{ch: make(chan acceptor.PlayerConn, 64), stop: make(chan struct{}),
+		byConn: map[acceptor.PlayerConn][]*session.ClientSession{}}
+	// what TCPComponent.Start does, with the in-memory acceptor in the place of NewTCPAcceptor(address)
+	a.cfg = session.NewSessionConfig(nil)
+	a.cfg.Impl = &captureImpl{IClientSessionImpl: pomelo.NewSessionsImpl(s.ns.GetRunService().GetScheduler(), s.sessions), a: a}
+	pomelo.StartAcceptor(a, a.cfg)
+	if n.acceptors == nil {
+		n.acceptors = map[string]*memAcceptor{}
+	}
+	n.acceptors[front] = a
+	return a
+}
+
+// Accept opens k new in-memory connections to a front service THROUGH THE REAL ACCEPT LOOP
+// (pomelo.StartAcceptor over an in-memory acceptor.Acceptor): all k connections are queued in the
+// acceptor's channel before the loop takes the first one (clients connecting at the same moment;
+// the step runs on one P so that this arrival order is what the loop sees on every run).  No
+// handshake yet.  Client.Served tells how many sessions the loop built on the connection;
+// Client.Session is the first of them (nil if none).
+func (n *Node) Accept(front string, k int) []*Client {
+	a := n.acceptorOf(front)
+	synctest.Wait()
+	cs := make([]*Client, k)
+	for i := range cs {
+		srvEnd, cliEnd := net.Pipe()
+		c := &Client{n: n, Front: front, conn: cliEnd, AutoHeartbeat: true, WriteTimeout: 2 * time.Second,
+			enc: codec.NewPomeloPacketEncoder(), menc: message.NewMessagesEncoder(false)}
+		go c.reader()
+		c.srv = &pipeConn{Conn: srvEnd}
+		if Framing != nil {
+			c.srv.framer = Framing(srvEnd)
+		}
+		cs[i] = c
+	}
+	old := runtime.GOMAXPROCS(1)
+	for _, c := range cs {
+		a.ch <- c.srv
+	}
+	synctest.Wait()
+	runtime.GOMAXPROCS(old)
+	a.mu.Lock()
+	for _, c := range cs {
+		ss := a.byConn[c.srv]
+		delete(a.byConn, c.srv)
+		c.Served = len(ss)
+		if len(ss) > 0 {
+			c.Session = ss[0]
+		}
+	}
+	a.mu.Unlock()
+	n.mu.Lock()
+	n.clients = append(n.clients, cs...)
+	n.mu.Unlock()
+	return cs
+}
+
+// write is conn.Write with the client's WriteTimeout (see there).
+func (c *Client) write(b []byte) bool {
+	if c.WriteTimeout <= 0 {
+		_, err := c.conn.Write(b)
+		return err == nil
+	}
+	c.mu.Lock()
+	st := c.stuck
+	c.mu.Unlock()
+	if st {
+		return true
+	}
+	c.conn.SetWriteDeadline(time.Now().Add(c.WriteTimeout))
+	_, err := c.conn.Write(b)
+	if errors.Is(err, os.ErrDeadlineExceeded) {
+		c.mu.Lock()
+		c.stuck = true
+		c.mu.Unlock()
+		return true
+	}
+	return err == nil
+}
+
+// Stuck tells whether a write of this client timed out (nobody reads the server end).
+func (c *Client) Stuck() bool {
+	c.mu.Lock()
+	defer c.mu.Unlock()
+	return c.stuck
 }
 
 // Connect opens a new in-memory connection to a front service: a real
@@ -175,17 +322,16 @@ func (c *Client) reader() {
 // SendRaw writes bytes to the connection (false when the server end is gone)
 // and waits for quiescence.
 func (c *Client) SendRaw(b []byte) bool {
-	_, err := c.conn.Write(b)
+	ok := c.write(b)
 	synctest.Wait()
-	return err == nil
+	return ok
 }
 
 // Write writes bytes to the connection WITHOUT waiting for quiescence (for
 // harnesses that want several clients' traffic in flight together; call
 // Node.Wait afterwards).
 func (c *Client) Write(b []byte) bool {
-	_, err := c.conn.Write(b)
-	return err == nil
+	return c.write(b)
 }
 
 // SendPacket frames body as a packet of the given type with the real encoder.
@@ -283,7 +429,12 @@ func (c *Client) Closed() bool {
 }
 
 // NetId is the id the front's ClientSessions gave to the session.
-func (c *Client) NetId() uint32 { return c.Session.GetId() }
+func (c *Client) NetId() uint32 {
+	if c.Session == nil {
+		return 0
+	}
+	return c.Session.GetId()
+}
 
 // Close closes the client end of the connection and waits for quiescence.
 func (c *Client) Close() {
